@@ -326,6 +326,7 @@ M("C16", "pymbolic/mapper/unifier.py", """            expr, other, unis, _make_r
 M("C13", "pymbolic/interop/ast.py", """        elif ((isinstance(expr, (int, float)) and expr < 0)
                 or (isinstance(expr, (float, complex))
                     and repr(expr).startswith("-"))):""", """        elif isinstance(expr, (int, float)) and expr < 0:""", "revert of fix 261077d (negative zero / imaginary constants under a power)")
+M("C07", "pymbolic/parser.py", """            if pstate.is_at_end() or pstate.next_tag() in (_closepar, _closebracket):""", """            if pstate.is_at_end() or pstate.next_tag() is _closepar:""", "revert of fix 294cf90 (trailing comma before a closing bracket)")
 AL = "pymbolic/algorithm.py"
 M("C19", "pymbolic/algorithm.py", """            aux = aux * x""", """            aux *= x""", "revert of fix 9cda97f (identity element multiplied in place)")
 M("C19", "pymbolic/rational.py", """            numerator //= d_unit
